@@ -1,4 +1,5 @@
 import Feox.Kv.StepAcc
+import Feox.Conc.Range
 /-!
 # C14 — range queries: exactly the live keys in range, ordered, current values
 
@@ -133,5 +134,61 @@ theorem range_complete (s : State) (a b : Bytes) (now : Nat) (hs : Sorted s.entr
 uniqueness and order of keys in every reachable state, the hypothesis of the theorems above -/
 theorem reachable_sorted (c : Cfg) (ops : List Op) : Sorted (run { cfg := c } ops).1.entries :=
   (run_acc (acc_init c) ops).sorted
+
+/-! ### under concurrent writers (model `Feox.Conc.Range`)
+
+The index may change arbitrarily between any two iterations of the scan.  `hist` lists, per
+iteration, the index at that instant and which entries resolve to a value. -/
+section Concurrent
+open Feox.Conc.Range
+
+/-- **Everything the statement promises about a scan racing with writers**, for every start
+index, every history of index changes, every bounds and limit:
+results strictly ascending (hence no key twice), inside the bounds, at most `limit`, each was in
+the index at some instant of the scan, and a key that is in the index and readable at *every*
+instant of the scan and that the scan has moved beyond is in the result. -/
+theorem concurrent_scan (lo hi limit : Nat) (ix0 : List Nat) (hist : List (List Nat × (Nat → Bool)))
+    (present stable : Nat → Prop) (hp0 : ∀ k ∈ ix0, present k) (hs0 : ∀ k, stable k → k ∈ ix0)
+    (hf : Fits present stable hist) :
+    let s := Feox.Conc.Range.run hi limit (start ix0 lo) hist
+    s.out.Pairwise (· < ·) ∧ (∀ k ∈ s.out, lo ≤ k ∧ k ≤ hi) ∧ s.out.length ≤ limit ∧
+    (∀ k ∈ s.out, present k) ∧ (∀ k, stable k → lo ≤ k → passed s k → k ∈ s.out) := by
+  have h := inv_run (lo := lo) (hi := hi) (limit := limit) hist _ (inv_start ix0 hp0 hs0) hf
+  exact ⟨h.sorted, h.bounds, h.short, h.genuine.1, h.complete⟩
+
+/-- **A key deleted before the query began never appears**: a key that is in no index of the
+scan's history is not in the result. -/
+theorem absent_never_appears (lo hi limit : Nat) (ix0 : List Nat) (hist : List (List Nat × (Nat → Bool))) (k : Nat)
+    (h0 : k ∉ ix0) (hh : ∀ st ∈ hist, k ∉ st.1) :
+    k ∉ (Feox.Conc.Range.run hi limit (start ix0 lo) hist).out := by
+  intro hk
+  have := (concurrent_scan lo hi limit ix0 hist (fun x => x ∈ ix0 ∨ ∃ st ∈ hist, x ∈ st.1) (fun _ => False)
+    (fun x hx => Or.inl hx) (fun _ hf => hf.elim)
+    (fun st hst => ⟨fun x hx => Or.inr ⟨st, hst, hx⟩, fun _ hf => hf.elim⟩)).2.2.2.1 k hk
+  rcases this with h | ⟨st, hst, hx⟩
+  · exact h0 h
+  · exact hh st hst hx
+
+/-- **A stable key is never missing or duplicated**: a key in every index of the history and
+readable throughout, at or above the lower bound, that the scan has moved beyond, occurs in the
+result exactly once. -/
+theorem stable_key_exactly_once (lo hi limit : Nat) (ix0 : List Nat) (hist : List (List Nat × (Nat → Bool))) (k : Nat)
+    (h0 : k ∈ ix0) (hh : ∀ st ∈ hist, k ∈ st.1 ∧ st.2 k = true) (hlo : lo ≤ k)
+    (hp : passed (Feox.Conc.Range.run hi limit (start ix0 lo) hist) k) :
+    (Feox.Conc.Range.run hi limit (start ix0 lo) hist).out.count k = 1 := by
+  have h := concurrent_scan lo hi limit ix0 hist (fun _ => True) (fun x => x = k)
+    (fun _ _ => trivial) (fun x hx => hx ▸ h0) (fun st hst => ⟨fun _ _ => trivial, fun x hx => hx ▸ hh st hst⟩)
+  have hmem := h.2.2.2.2 k rfl hlo hp
+  have hnd : (Feox.Conc.Range.run hi limit (start ix0 lo) hist).out.Nodup :=
+    h.1.imp (fun hab => Nat.ne_of_lt hab)
+  rw [hnd.count]; simp [hmem]
+
+/- non-vacuity: key 5 is removed after the scan has left it, key 7 appears behind the scan,
+key 9 stays: the scan returns 3, 5, 9 -/
+example : (Feox.Conc.Range.run 100 10 (start [3, 5, 9] 0)
+    [([3, 5, 9], fun _ => true), ([3, 9], fun _ => true), ([3, 4, 9], fun _ => true), ([3, 4, 9], fun _ => true)]).out = [3, 5, 9] := by
+  decide
+
+end Concurrent
 
 end Feox.C14
